@@ -332,6 +332,8 @@ impl Cnf {
         requires small(clauses@),
         ensures
             r.wf(), small(r.clauses@),
+            // num_vars is exact: 0 for a formula without literals, otherwise the largest label + 1
+            r.num_vars == 0 || exists|i: int, j: int| 0 <= i < r.clauses@.len() && 0 <= j < r.clauses@[i].len() && (#[trigger] r.clauses@[i][j]).lbl.0 + 1 == r.num_vars,
             // normalisation keeps the meaning of every clause, hence of the formula
             r.clauses.len() == clauses.len(),
             forall|a: Seq<bool>| #[trigger] cnf_true(r.clauses@, a) == cnf_true(clauses@, a),
@@ -349,10 +351,12 @@ impl Cnf {
 //%% @loop 2 /^for clause in mx__it: clauses\.iter\(\)$/
             invariant
                 forall|k: int, j: int| 0 <= k < mx__it.index@ && 0 <= j < clauses@[k].len() ==> (#[trigger] clauses@[k][j]).lbl.0 < mx__o,
+                mx__o == 0 || exists|k: int, j: int| 0 <= k < mx__it.index@ && 0 <= j < clauses@[k].len() && (#[trigger] clauses@[k][j]).lbl.0 + 1 == mx__o,
                 forall|k: int, j: int| 0 <= k < clauses@.len() && 0 <= j < clauses@[k].len() ==> (#[trigger] clauses@[k][j]).lbl.0 < 0x8000_0000_0000_0000,
 //%% @loop 3 /^for lit in mx__jt: clause\.iter\(\)$/
                 invariant
                     forall|j: int| 0 <= j < mx__jt.index@ ==> (#[trigger] clause@[j]).lbl.0 < mx__i,
+                    mx__i == 0 || exists|j: int| 0 <= j < mx__jt.index@ && (#[trigger] clause@[j]).lbl.0 + 1 == mx__i,
                     forall|j: int| 0 <= j < clause@.len() ==> (#[trigger] clause@[j]).lbl.0 < 0x8000_0000_0000_0000,
 //%% end
 
